@@ -394,4 +394,70 @@ Proof.
       unfold strm_ok. rewrite Sst, Sresp, Srun, Sfin, Wr2. cbn. rewrite Hhc, Hfin, Resp, Wr. repeat split; auto.
 Qed.
 
+(* ---------- every stream of the table is rewritten in place (SETTINGS changes the windows) ---------- *)
+
+Definition same_shape (a b : stream) : Prop :=
+  st_id b = st_id a /\ st_state b = st_state a /\ st_headersFinished b = st_headersFinished a /\ (strm_ok a -> strm_ok b).
+
+Lemma same_shape_refl a : same_shape a a. Proof. unfold same_shape. auto. Qed.
+
+Lemma Forall2_ids l l' : Forall2 same_shape l l' -> map st_id l' = map st_id l.
+Proof. induction 1 as [|a b l l' H _ IH]; [reflexivity|]. cbn [map]. destruct H as [-> _]. rewrite IH. reflexivity. Qed.
+
+Lemma Forall2_In_r l l' b : Forall2 same_shape l l' -> In b l' -> exists a, In a l /\ same_shape a b.
+Proof.
+  induction 1 as [|a0 b0 l l' H _ IH]; cbn [In]; [tauto|]. intros [<-|X]; [exists a0; auto|].
+  destruct (IH X) as (a & Ha & Hs). exists a. auto.
+Qed.
+
+Lemma Forall2_search l l' id : Forall2 same_shape l l' ->
+  match strms_search l id, strms_search l' id with
+  | Some a, Some b => same_shape a b
+  | None, None => True
+  | _, _ => False
+  end.
+Proof.
+  induction 1 as [|a b l l' H _ IH]; cbn [strms_search]; [exact I|].
+  destruct H as (Hid & Hr). rewrite Hid. destruct (st_id a =? id); [split; [exact Hid | exact Hr] | exact IH].
+Qed.
+
+Lemma batch_rel c c' d :
+  AuxT c -> Forall2 same_shape (sc_strms c) (sc_strms c') -> sc_ring c' = sc_ring c -> sc_oldest c' = sc_oldest c ->
+  sc_rl_done c' = sc_rl_done c -> sc_wl_dead c' = sc_wl_dead c -> sc_readerQ c' = sc_readerQ c ->
+  sc_lastID c' = sc_lastID c -> sc_highestID c' = sc_highestID c -> sc_closing c' = sc_closing c ->
+  sc_expectCont c' = sc_expectCont c -> sc_discardID c' = sc_discardID c -> filter noisy d = [] ->
+  batch c c' d [].
+Proof.
+  intros AT F2 A2 A3 A4 A5 A6 A7 A8 A9 A10 A11 Q.
+  assert (Rf : forall id, ring_find c' id = ring_find c id) by (intro id; apply ring_find_ext, A2).
+  pose proof (A_nodup _ _ AT) as ND.
+  constructor; try assumption.
+  - apply (quiet_no_goaway d Q).
+  - apply quiet_exit_false, Q.
+  - rewrite (Forall2_ids _ _ F2). exact ND.
+  - eapply ring_ok_ext; [exact A2 | exact A3 | apply (A_ring _ _ AT)].
+  - intros st' H. destruct (Forall2_In_r _ _ _ F2 H) as (st & Hin & Hid & Hst & Hfin & Hok).
+    exists st. split; [exact Hin|]. split; [exact Hid|]. split; [exact Hst|]. split; [exact Hfin|].
+    split; [apply Hok, (AuxT_strm_ok hstate c st AT Hin)|]. split; [apply sents_on_quiet, Q|].
+    rewrite in_ring_find, Rf, <- in_ring_find, Hid. apply (A_tr _ _ AT st Hin).
+  - intros id st T T'. pose proof (Forall2_search _ _ id F2) as X. unfold SrvRfcDefs.tbl in T, T'. rewrite T, T' in X. destruct X.
+  - intros id T. pose proof (Forall2_search _ _ id F2) as X. unfold SrvRfcDefs.tbl in *. rewrite T in X.
+    destruct (strms_search (sc_strms c') id); [destruct X|]. split; [reflexivity|]. split; [left; apply Rf | apply sents_on_quiet, Q].
+Qed.
+
+(* flushStreams has nothing to do when no response is waiting for window *)
+Definition no_pending c : bool :=
+  forallb (fun st => negb (st_responded st && negb (st_handlerRunning st) && has_more_to_send st)) (sc_strms c).
+
+Lemma flush_loop_noop c : no_pending c = true -> forall ids done, flush_loop c ids done = (c, done).
+Proof.
+  intros NP ids. induction ids as [|id t IH]; intro done; cbn [flush_loop]; [reflexivity|].
+  destruct (strms_search (sc_strms c) id) as [st|] eqn:T; [|apply IH].
+  unfold no_pending in NP. rewrite forallb_forall in NP. specialize (NP st (search_In _ _ _ T)).
+  apply negb_true_iff in NP. rewrite NP. apply IH.
+Qed.
+
+Lemma flush_streams_noop c : no_pending c = true -> flush_streams c = c.
+Proof. intro NP. unfold flush_streams. rewrite (flush_loop_noop c NP). reflexivity. Qed.
+
 End Batch2.
